@@ -224,7 +224,8 @@ def switch_draw_config(rep, mir, L):
             def ham_new(vm, m, c, a): m.log('events', ('ham_new', a[2])); return ret(m, Opaque('hamiltonian'))
             vm.add_model(r'^TransformedHamiltonian::<.*>::new$', ham_new)
             # everything else new_chain calls builds components that do not enter the checked arguments
-            vm.add_model(r'^(?!MclmcChain::|TransformedHamiltonian::<.*>::new$|<f64|<u64|f64::|core::|std::ops|std::cmp|std::num).*', lambda vm, m, c, a: ret(m, Opaque(c[:40])))
+            # (plain crate-local helper functions - a bare name - are executed, not stubbed: a refactoring may move the computation of a checked argument into one)
+            vm.add_model(r'^(?!MclmcChain::|TransformedHamiltonian::<.*>::new$|<f64|<u64|f64::|core::|std::ops|std::cmp|std::num|[a-z_][a-z_0-9]*$).*', lambda vm, m, c, a: ret(m, Opaque(c[:40])))
             m = Machine(); m.ghost['events'] = []; m.pc += [nt >= 0, nt < 2 ** 32, frac.v >= 0, frac.v <= 1, z3.Int('num_draws') >= 0, z3.Int('num_draws') < 2 ** 32]
             try: outs = vm.run(fn, [Ref(m.alloc(L.make(sname, vals))), z3.Int('chain_id'), Opaque('math'), Ref(m.alloc(Opaque('rng')))], m)
             except Exception as e:
@@ -242,6 +243,7 @@ def switch_draw_config(rep, mir, L):
                 kinds = [x for x in args if isinstance(x, Enum) and x.ty == 'MclmcTrajectoryKind']
                 if not kinds or kinds[0].name != tkind: bad.append(('the chain is built with another trajectory kind than the settings say',))
                 ik = hn[0][1]
+                if isinstance(ik, Opaque): rep.unknown('C18 new_chain initial kinetic-energy kind', 'computed by a call the harness stubs: %s' % ik.tag); continue
                 if not (isinstance(ik, Enum) and (ik.name == 'Microcanonical') == (tkind == 'Microcanonical') and ik.name in ('Microcanonical', 'Euclidean')): bad.append(('initial kinetic-energy kind %s for trajectory kind %s' % (getattr(ik, 'name', ik), tkind),))
     rep.paths += n
     if bad: rep.violated('C18 MCLMC presets hand the configured switch draw to the chain', 'switch_config', 'MclmcSettings::new_chain: %s' % (bad[0],), model={'problems': [str(b)[:300] for b in bad[:5]]})
